@@ -170,10 +170,11 @@ def applyCfg (g : Gang) (c : Cfg) (fromAnno : Bool) : Gang :=
 
 /-! ### gang.go: the four child sets -/
 
-/-- setChild -/
+/-- setChild (with the guard of fix bbde960: a bound pod does not go back to pending on a stale
+    update that does not carry the node name yet) -/
 def PodSets.setChild (g : PodSets) (p : Pod) (hasNode : Bool) : PodSets :=
   let g1 := { g with children := sIns p g.children }
-  if hasNode = false ∧ p ∉ g1.waiting then { g1 with pending := sIns p g1.pending } else g1
+  if hasNode = false ∧ p ∉ g1.waiting ∧ p ∉ g1.bound then { g1 with pending := sIns p g1.pending } else g1
 
 /-- addAssumedPod -/
 def PodSets.addAssumed (g : PodSets) (p : Pod) : PodSets :=
